@@ -414,7 +414,7 @@ CHECKS["C08"] = dict(
              "operations (crypt_rn for 16 methods, crypt_r, crypt_ra, crypt_gensalt_rn for 14 prefixes + count + NULL prefix + rbytes==NULL, "
              "crypt_gensalt_ra, crypt_checksalt, crypt_preferred_method); configurations: every ordered pair as 2 threads x 1 operation, 2 threads "
              "x 2 operations for same/neighbour pairs, 3 threads x 1 operation over a 6 (quick) / 12 (thorough) operation sub-alphabet; every "
-             "configuration explored to completion for preemption bounds 0, 1, 2; scheduling points = operation start/end + every write to the "
+             "configuration explored to completion for preemption bounds 0, 1, 2; scheduling points = operation start/end + every mmap/munmap (a mapping belongs to the thread that made it and may only be unmapped, exactly, by that thread; thorough adds a 32 MiB operation) + every write to the "
              "library's writable image + every read of an image byte ever written + every access to another thread's object; per execution a "
              "byte-granular shadow of the image detects cross-thread conflicting accesses; results compared with solo results; 'states' counts "
              "configurations, 'transitions' counts complete executions (schedules)",
